@@ -354,7 +354,9 @@ def aligned(run, p):
                             'computed in an earlier statement has no re-indexing of F in between - in place (reset_index / sort_* / '
                             'set_index with inplace=True, F.index = ...) on F or on a name that may be the same frame (plain copies '
                             'followed), or by rebinding F to a re-indexed frame; (b) no Series is built from positional values without '
-                            'index=, because it would carry a fresh 0..n-1 index and be matched to the records by those labels')
+                            'index=, because it would carry a fresh 0..n-1 index and be matched to the records by those labels; (c) frames are never put side by '
+                            'side with join / merge / concat(axis=1), which pair rows by label and multiply rows whose labels repeat (columns '
+                            'are copied with insert / assignment, which keep the row set)')
     m = p.mod('tdda.constraints.pd.constraints')
     nsel = nser = 0
     for f in p.funcs.values():
@@ -425,6 +427,21 @@ def aligned(run, p):
                 run.ob('C06-ALIGNED', '%s::%s::%s' % (f.rel, f.short, norm(x)[:40]), ok,
                        '%s %s' % (norm(x)[:60], 'carries the index it is given' if ok else 'is built from positional values without index=: it is labelled 0..n-1, and '
                                   'assigning it to a column of the detection frame matches it to the records by those labels'), fn=f, node=x)
+        for x in nodes:
+            lab = None
+            if isinstance(x, ast.Call) and isinstance(x.func, ast.Attribute) and x.func.attr in ('join', 'merge') and not isinstance(x.func.value, ast.Constant):
+                ids = {y.id for z in [x.func.value] + list(x.args) for y in ast.walk(z) if isinstance(y, ast.Name)} | \
+                      {y.attr for z in [x.func.value] + list(x.args) for y in ast.walk(z) if isinstance(y, ast.Attribute)}
+                if any(i == 'df' or i.endswith('_df') for i in ids):
+                    lab = x
+            if isinstance(x, ast.Call) and norm(x.func) in ('pd.merge', 'pd.concat', 'pandas.merge', 'pandas.concat') and \
+                    (norm(x.func).endswith('merge') or any(k.arg == 'axis' and isinstance(k.value, ast.Constant) and k.value.value in (1, 'columns') for k in x.keywords)):
+                lab = x
+            if lab is not None:
+                nser += 1
+                run.ob('C06-ALIGNED', '%s::%s::%s' % (f.rel, f.short, norm(lab)[:40]), False,
+                       '%s puts frames side by side by index label: every row is paired with every row carrying the same label, so with '
+                       'repeated labels the detection frame gains rows and joins the flags of one record to the fields of another' % norm(lab)[:70], fn=f, node=lab)
     run.units['row_selections_examined'] = nsel
     run.units['series_constructions_examined'] = nser
     run.floor('C06-ALIGNED', nsel, 2)
